@@ -52,6 +52,10 @@ class M(HasTraits):
     child = Instance(Child)
     kids = List(Instance(Child))
     dc = Dict(Str, Instance(Child))          # values may be THE SAME objects as child / kids[i] (aliasing inside the graph)
+    # containers whose item trait needs the OWNER to decide (This = "an instance of my class")
+    peers_s = Set(T.This)
+    peers_l = List(T.This)
+    peers_d = Dict(Str, T.This)
     tmp = Int(5, transient=True)
     ro = ReadOnly
     ref_list = List(Int, copy="ref")
@@ -108,6 +112,7 @@ OP = st.one_of(
     st.tuples(st.just("w"), st.integers(1, 9)), st.tuples(st.just("wz"), st.integers(1, 9)),
     st.tuples(st.just("dc"), st.sampled_from("ab"), st.sampled_from(["child", "kid", "fresh"])),
     st.tuples(st.just("dc"), st.sampled_from("ab"), st.sampled_from(["child", "kid", "fresh"])),
+    st.tuples(st.just("peers"), st.sampled_from(["s", "l", "d"])), st.tuples(st.just("peers"), st.sampled_from(["s", "l", "d"])),
 ).map(list)
 MODES = ["p0", "p1", "p2", "p3", "p4", "p5", "deepcopy", "clone_deep", "clone_none", "clone_shallow", "copy_traits"]
 
@@ -203,6 +208,15 @@ def objects_run(case, ctx):
         elif k in ("w", "wz"):
             setattr(o, k, op[1])
             interesting = True
+        elif k == "peers":
+            peer = M()
+            if op[1] == "s":
+                o.peers_s.add(peer)
+            elif op[1] == "l":
+                o.peers_l.append(peer)
+            else:
+                o.peers_d["p%d" % len(o.peers_d)] = peer
+            interesting = True
         elif k == "dc":
             if op[2] == "child" and o.child is not None:
                 o.dc[op[1]] = o.child
@@ -263,6 +277,9 @@ def objects_run(case, ctx):
     if o.z_palette is not None and c.a_shade != o.a_shade:
         ctx.fail("state/prototyped-value", "%s: prototyped attribute reads %r, original %r (local value %r)"
                  % (mode, c.a_shade, o.a_shade, local_shade))
+    for pn in ("peers_s", "peers_l", "peers_d"):
+        if len(getattr(c, pn)) != len(getattr(o, pn)):
+            ctx.fail("state/value", "%s: %s holds %d item(s), the original %d" % (mode, pn, len(getattr(c, pn)), len(getattr(o, pn))))
     if c.tmp != 5:
         ctx.fail("state/transient", "%s: transient trait is %r, default is 5" % (mode, c.tmp))
     # ---- no shared mutable containers
